@@ -36,6 +36,9 @@ struct Ctx {
     err_ty: String,           // Lean name of the module's `Error` enum
     group_vars: std::cell::RefCell<BTreeSet<String>>, // variables known to hold a `G<P>` (for `==`, `*` on group elements)
     ns: String,               // Lean namespace of the function being translated
+    lib: bool,                // lib.rs: newtype wrappers (`Fq(..)`, `.0`) are the identity, byte slices are `List UInt8`
+    elem: String,             // lib.rs `impl G1` / `impl G2`: the coordinate field ("Fq" / "Fq2")
+    unit_ret: bool,           // `&mut self` method without a return value: returns the new `self`
 }
 
 fn ty_name(t: &Type, cx: &Ctx) -> R<String> {
@@ -49,6 +52,7 @@ fn ty_name(t: &Type, cx: &Ctx) -> R<String> {
             match name.as_str() {
                 "Self" => Ok(cx.self_ty.clone()),
                 "Fq" | "Fq2" | "Fq4" | "Fq12" | "Fr" | "G1" | "G2" | "G2Prepared" => Ok(name),
+                "Gt" => Ok("Fq12".into()),
                 "bool" => Ok("Bool".into()),
                 "usize" | "u128" | "u64" | "u32" | "u8" => Ok("Nat".into()),
                 "Base" => cx.mono.clone().ok_or_else(|| "P::Base outside a monomorphised impl".to_string()),
@@ -57,7 +61,8 @@ fn ty_name(t: &Type, cx: &Ctx) -> R<String> {
                 "Result" => {
                     if let PathArguments::AngleBracketed(a) = &last.arguments {
                         if let Some(GenericArgument::Type(t)) = a.args.first() {
-                            return Ok(format!("Except {} ({})", cx.err_ty, ty_name(t, cx)?));
+                            let et = match a.args.iter().nth(1) { Some(GenericArgument::Type(Type::Path(ep))) => { let n = path_str(&ep.path); if n == "Error" { cx.err_ty.clone() } else { n } } _ => cx.err_ty.clone() };
+                            return Ok(format!("Except {} ({})", et, ty_name(t, cx)?));
                         }
                     }
                     Err("Result without argument".into())
@@ -81,6 +86,8 @@ fn ty_name(t: &Type, cx: &Ctx) -> R<String> {
                 _ => Err(format!("type {}", segs.join("::"))),
             }
         }
+        Type::Slice(sl) if quote::quote!(#sl).to_string().replace(' ', "") == "[u8]" => Ok("List UInt8".into()),
+        Type::Array(a) if { let e = &a.elem; quote::quote!(#e).to_string() == "u8" } => Ok("List UInt8".into()),
         Type::Tuple(t) => {
             let v: R<Vec<String>> = t.elems.iter().map(|e| ty_name(e, cx)).collect();
             Ok(format!("({})", v?.join(" × ")))
@@ -116,7 +123,113 @@ fn is_group(cx: &Ctx, e: &Expr) -> bool {
     }
 }
 
+const NEWTYPES: &[&str] = &["Fq", "Fq2", "Fr", "G1", "G2", "Gt", "AffineG1", "AffineG2"];
+
+fn hoist(cx: &Ctx, rhs: String) -> R<String> {
+    if !cx.outcome { return Err("Outcome call outside an Outcome function".into()); }
+    let k = cx.fresh.get(); cx.fresh.set(k + 1);
+    let v = format!("u{}", k);
+    cx.binds.borrow_mut().push((v.clone(), rhs));
+    Ok(v)
+}
+
+/// is this expression a machine integer (`u8`, `usize`)?  Their `+ - *` can wrap or panic: never translated.
+fn is_num(cx: &Ctx, e: &Expr) -> bool {
+    match e {
+        Expr::Lit(l) => matches!(&l.lit, Lit::Int(_)),
+        Expr::Paren(p) => is_num(cx, &p.expr),
+        Expr::Group(g) => is_num(cx, &g.expr),
+        Expr::Reference(r) => is_num(cx, &r.expr),
+        Expr::Unary(u) => is_num(cx, &u.expr),
+        Expr::Cast(_) => true,
+        Expr::Index(ix) => !matches!(&*ix.index, Expr::Range(_)),
+        Expr::MethodCall(m) => m.method == "len",
+        Expr::Path(p) => cx.group_vars.borrow().contains(&format!("num:{}", path_str(&p.path))),
+        Expr::Binary(b) => is_num(cx, &b.left) || is_num(cx, &b.right),
+        _ => false,
+    }
+}
+
+/// lib.rs idioms; `None` = not one of them, fall through to the general translation
+fn lib_expr(cx: &Ctx, e: &Expr) -> R<Option<String>> {
+    if let Expr::Binary(b) = e {
+        if matches!(b.op, BinOp::Add(_) | BinOp::Sub(_) | BinOp::Mul(_) | BinOp::Div(_) | BinOp::Rem(_) | BinOp::Shl(_) | BinOp::Shr(_)) && (is_num(cx, &b.left) || is_num(cx, &b.right)) {
+            return Err("machine-integer arithmetic (may wrap or panic)".into());
+        }
+    }
+    Ok(Some(match e {
+        // newtype projection
+        Expr::Field(f) if matches!(&f.member, Member::Unnamed(i) if i.index == 0) => expr(cx, &f.base)?,
+        Expr::Call(c) => {
+            let f = match &*c.func { Expr::Path(p) => path_str(&p.path), _ => return Ok(None) };
+            let args: R<Vec<String>> = c.args.iter().map(|a| expr(cx, a)).collect();
+            let args = args?;
+            match (f.as_str(), args.len()) {
+                (n, 1) if NEWTYPES.contains(&n) => args[0].clone(),
+                ("Self::b", 0) => if cx.elem == "Fq" { "Sm9.Api.g1B".into() } else { "Sm9.Api.g2B".into() },
+                ("fields::Fq::from_slice", 1) => format!("(Sm9.Api.fqFromSliceStrict {})", paren(&args[0])),
+                ("Fq2::from_slice", 1) => format!("(Sm9.Api.fq2FromSlice {})", paren(&args[0])),
+                ("AffineG1::new", 2) => format!("(Sm9.AffineG.new (F := Fq) {} {})", paren(&args[0]), paren(&args[1])),
+                ("AffineG2::new", 2) => format!("(Sm9.AffineG.new (F := Fq2) {} {})", paren(&args[0]), paren(&args[1])),
+                ("AffineG1::from_jacobian", 1) | ("AffineG2::from_jacobian", 1) => format!("{}.to_affine", paren(&args[0])),
+                ("Self::from_slice", 1) => if cx.elem == "Fq" { format!("(Sm9.Api.g1FromSlice {})", paren(&args[0])) } else { format!("(Sm9.Api.g2FromSlice {})", paren(&args[0])) },
+                ("pairings::pairing", 2) => hoist(cx, format!("Sm9.Pairings.pairing {} {}", paren(&args[0]), paren(&args[1])))?,
+                ("pairings::fast_pairing", 2) => hoist(cx, format!("Sm9.Pairings.fast_pairing {} {}", paren(&args[0]), paren(&args[1])))?,
+                _ => return Ok(None),
+            }
+        }
+        Expr::Index(ix) => {
+            let base = expr(cx, &ix.expr)?;
+            match &*ix.index {
+                Expr::Range(r) => match (&r.start, &r.end) {
+                    (Some(a), None) => format!("({}.drop {})", paren(&base), expr(cx, a)?),
+                    (None, Some(b)) if matches!(r.limits, RangeLimits::HalfOpen(_)) => format!("({}.take {})", paren(&base), expr(cx, b)?),
+                    _ => return Err("slice range".into()),
+                },
+                i => format!("(({}.getD {} 0).toNat)", paren(&base), expr(cx, i)?),    // a `u8` read as a number
+            }
+        }
+        Expr::Repeat(r) => {
+            let v = match &*r.expr { Expr::Lit(l) => match &l.lit { Lit::Int(i) => i.base10_digits().to_string(), _ => return Err("array literal".into()) }, _ => return Err("array literal".into()) };
+            format!("(List.replicate {} ({} : UInt8))", expr(cx, &r.len)?, v)
+        }
+        Expr::MethodCall(m) => {
+            let name = m.method.to_string();
+            match (name.as_str(), m.args.len()) {
+                ("len", 0) => format!("{}.length", paren(&expr(cx, &m.receiver)?)),
+                ("as_ref", 0) => expr(cx, &m.receiver)?,
+                ("map", 1) if matches!(&m.args[0], Expr::Path(p) if NEWTYPES.contains(&path_str(&p.path).as_str())) => expr(cx, &m.receiver)?,
+                ("map", 1) if matches!(&m.args[0], Expr::Path(p) if path_str(&p.path) == "Into::into") =>
+                    format!("(Except.map (fun a => Sm9.AffineG.to_jacobian a) {})", paren(&expr(cx, &m.receiver)?)),
+                ("map_err", 1) => {
+                    if let Expr::Closure(c) = &m.args[0] { if matches!(c.inputs.first(), Some(Pat::Wild(_))) {
+                        return Ok(Some(format!("(Except.mapError (fun _ => {}) {})", expr(cx, &c.body)?, paren(&expr(cx, &m.receiver)?))));
+                    } }
+                    return Err("map_err closure".into());
+                }
+                ("is_even", 0) => { let r = expr(cx, &m.receiver)?; if cx.elem == "Fq" { format!("{}.is_even", paren(&r)) } else { format!("(Sm9.Api.fq2IsEven {})", paren(&r)) } }
+                ("sqrt", 0) => format!("{}.sqrt", paren(&expr(cx, &m.receiver)?)),
+                ("to_slice", 0) => {
+                    let r = expr(cx, &m.receiver)?;
+                    if matches!(&*m.receiver, Expr::Path(p) if path_str(&p.path) == "self") {
+                        hoist(cx, format!("{} {}", if cx.elem == "Fq" { "Sm9.Api.g1ToSlice" } else { "Sm9.Api.g2ToSlice" }, paren(&r)))?
+                    } else if cx.elem == "Fq" { format!("(Sm9.Api.fqToSlice {})", paren(&r)) } else { format!("(Sm9.Api.fq2ToSlice {})", paren(&r)) }
+                }
+                _ => return Ok(None),
+            }
+        }
+        Expr::Binary(b) if matches!(b.op, BinOp::BitAnd(_)) => format!("({} &&& {})", expr(cx, &b.left)?, expr(cx, &b.right)?),
+        // order comparisons: in the translated part of lib.rs only lengths and bytes (numbers) are compared
+        Expr::Binary(b) if matches!(b.op, BinOp::Lt(_)) => format!("(decide ({} < {}))", expr(cx, &b.left)?, expr(cx, &b.right)?),
+        Expr::Binary(b) if matches!(b.op, BinOp::Le(_)) => format!("(decide ({} ≤ {}))", expr(cx, &b.left)?, expr(cx, &b.right)?),
+        Expr::Binary(b) if matches!(b.op, BinOp::Gt(_)) => format!("(decide ({} > {}))", expr(cx, &b.left)?, expr(cx, &b.right)?),
+        Expr::Binary(b) if matches!(b.op, BinOp::Ge(_)) => format!("(decide ({} ≥ {}))", expr(cx, &b.left)?, expr(cx, &b.right)?),
+        _ => return Ok(None),
+    }))
+}
+
 fn expr(cx: &Ctx, e: &Expr) -> R<String> {
+    if cx.lib { if let Some(s) = lib_expr(cx, e)? { return Ok(s); } }
     Ok(match e {
         Expr::Paren(p) => format!("({})", expr(cx, &p.expr)?),
         Expr::Group(g) => expr(cx, &g.expr)?,
@@ -154,6 +267,7 @@ fn expr(cx: &Ctx, e: &Expr) -> R<String> {
                 "None" => "none".into(),
                 "u128::BITS" => "128".into(),
                 _ if s.starts_with("Error::") => format!("{}.{}", cx.err_ty, &s[7..]),
+                _ if s.starts_with("CurveError::") || s.starts_with("GroupError::") || s.starts_with("FieldError::") => s.replace("::", "."),
                 _ => {
                     if s.chars().all(|c| c.is_ascii_uppercase() || c.is_ascii_digit() || c == '_') {
                         format!("Consts.{}", s)     // SM9_A3 etc.
@@ -415,7 +529,8 @@ fn mut_self_call(e: &Expr) -> Option<String> {
 
 fn assigned_in_expr(e: &Expr, acc: &mut BTreeSet<String>, declared: &mut BTreeSet<String>) {
     match e {
-        Expr::MethodCall(m) if m.method == "push" => collect_lhs(&m.receiver, acc, declared),
+        Expr::MethodCall(m) if m.method == "push" || m.method == "normalize" || m.method == "copy_from_slice" => collect_lhs(&m.receiver, acc, declared),
+        Expr::Binary(b) if matches!(b.op, BinOp::BitOrAssign(_)) => collect_lhs(&b.left, acc, declared),
         Expr::Assign(a) => { collect_lhs(&a.left, acc, declared); }
         Expr::Binary(b) if matches!(b.op, BinOp::AddAssign(_) | BinOp::SubAssign(_) | BinOp::MulAssign(_)) => collect_lhs(&b.left, acc, declared),
         Expr::If(i) => {
@@ -433,6 +548,7 @@ fn collect_lhs(e: &Expr, acc: &mut BTreeSet<String>, declared: &BTreeSet<String>
         Expr::Unary(u) => collect_lhs(&u.expr, acc, declared),
         Expr::Tuple(t) => for x in &t.elems { collect_lhs(x, acc, declared) },
         Expr::Field(f) => collect_lhs(&f.base, acc, declared),
+        Expr::Index(ix) => collect_lhs(&ix.expr, acc, declared),
         _ => {}
     }
 }
@@ -463,6 +579,19 @@ fn stmts(cx: &Ctx, ss: &[Stmt], ind: usize, tail: Option<&str>) -> R<String> {
                 Some(init) => {
                     // `let b = e?;`
                     if let Expr::Try(t) = &*init.expr {
+                        // `let x = e.ok_or(ERR)?;` in a function returning Result
+                        if let Expr::MethodCall(mc) = &*t.expr {
+                            if mc.method == "ok_or" && mc.args.len() == 1 && cx.ret_result {
+                                let inner = expr(cx, &mc.receiver)?;
+                                let err = expr(cx, &mc.args[0])?;
+                                flush(cx, &pad, &mut out);
+                                writeln!(out, "{}match {} with", pad, inner).unwrap();
+                                writeln!(out, "{}| none => Except.error {}", pad, err).unwrap();
+                                writeln!(out, "{}| some {} =>", pad, name).unwrap();
+                                out.push_str(&stmts(cx, rest, ind + 2, tail)?);
+                                return Ok(out);
+                            }
+                        }
                         let inner = expr(cx, &t.expr)?;
                         flush(cx, &pad, &mut out);
                         if !cx.ret_option { return Err("`?` in a function not returning Option".into()); }
@@ -472,11 +601,34 @@ fn stmts(cx: &Ctx, ss: &[Stmt], ind: usize, tail: Option<&str>) -> R<String> {
                         out.push_str(&stmts(cx, rest, ind + 2, tail)?);
                         return Ok(out);
                     }
+                    if let Expr::Match(mm) = &*init.expr {
+                        // `let v = match e { Some(a) => a, None => return };`
+                        if mm.arms.len() == 2 && cx.unit_ret {
+                            let some_arm = mm.arms.iter().find(|a| matches!(&a.pat, Pat::TupleStruct(ts) if path_str(&ts.path) == "Some"));
+                            let none_arm = mm.arms.iter().find(|a| matches!(&a.pat, Pat::Ident(i) if i.ident == "None") || matches!(&a.pat, Pat::Path(pp) if path_str(&pp.path) == "None"));
+                            if let (Some(sa), Some(na)) = (some_arm, none_arm) {
+                                if matches!(&*na.body, Expr::Return(r) if r.expr.is_none()) {
+                                    let Pat::TupleStruct(ts) = &sa.pat else { return Err("let-match pattern".into()) };
+                                    let bound = pat_str(&ts.elems[0])?;
+                                    let scrut = expr(cx, &mm.expr)?;
+                                    let val = expr(cx, &sa.body)?;
+                                    flush(cx, &pad, &mut out);
+                                    writeln!(out, "{}match {} with", pad, scrut).unwrap();
+                                    writeln!(out, "{}| none => self", pad).unwrap();
+                                    writeln!(out, "{}| some {} =>", pad, bound).unwrap();
+                                    writeln!(out, "{}  let {} := {}", pad, name, val).unwrap();
+                                    out.push_str(&stmts(cx, rest, ind + 2, tail)?);
+                                    return Ok(out);
+                                }
+                            }
+                        }
+                    }
                     let e = expr(cx, &init.expr)?;
                     flush(cx, &pad, &mut out);
                     if let Expr::Call(c) = &*init.expr { if let Expr::Path(p) = &*c.func { if path_str(&p.path) == "G2Prepared::from" { cx.group_vars.borrow_mut().insert(format!("prepared:{}", name)); } } }
                     let declared_group = match &l.pat { Pat::Type(t) => { let ts = quote::quote!(#t).to_string(); ts.contains(": G <") || ts.ends_with(": G1") || ts.ends_with(": G2") } _ => false };
                     if declared_group || is_group(cx, &init.expr) { cx.group_vars.borrow_mut().insert(name.clone()); } else { cx.group_vars.borrow_mut().remove(&name); }
+                    if cx.lib { if is_num(cx, &init.expr) { cx.group_vars.borrow_mut().insert(format!("num:{}", name)); } else { cx.group_vars.borrow_mut().remove(&format!("num:{}", name)); } }
                     match mut_self_call(&init.expr) {
                         Some(r) => writeln!(out, "{}let ({}, {}) := {}", pad, r, name, e).unwrap(),
                         None => writeln!(out, "{}let {} := {}", pad, name, e).unwrap(),
@@ -486,11 +638,55 @@ fn stmts(cx: &Ctx, ss: &[Stmt], ind: usize, tail: Option<&str>) -> R<String> {
         }
         Stmt::Expr(e, semi) => {
             match e {
+                Expr::Return(r) if r.expr.is_none() && cx.unit_ret => {
+                    flush(cx, &pad, &mut out);
+                    write!(out, "{}self", pad).unwrap();
+                    return Ok(out);
+                }
                 Expr::Return(r) => {
                     let v = expr(cx, r.expr.as_ref().ok_or("bare return")?)?;
                     flush(cx, &pad, &mut out);
                     write!(out, "{}{}", pad, wrap_result(cx, v)).unwrap();
                     return Ok(out);
+                }
+                Expr::Assign(a) if cx.lib && matches!(&*a.left, Expr::Index(_)) => {
+                    let Expr::Index(ix) = &*a.left else { unreachable!() };
+                    let base = lhs_str(cx, &ix.expr)?;
+                    let i = expr(cx, &ix.index)?;
+                    let v = expr(cx, &a.right)?;
+                    flush(cx, &pad, &mut out);
+                    writeln!(out, "{}let {} := {}.set {} (UInt8.ofNat {})", pad, base, base, i, paren(&v)).unwrap();
+                }
+                Expr::Assign(a) if cx.lib && matches!(&*a.left, Expr::Field(f) if matches!(&f.member, Member::Unnamed(i) if i.index == 0)) => {
+                    let Expr::Field(f) = &*a.left else { unreachable!() };
+                    let base = lhs_str(cx, &f.base)?;
+                    let v = expr(cx, &a.right)?;
+                    flush(cx, &pad, &mut out);
+                    writeln!(out, "{}let {} := {}", pad, base, v).unwrap();
+                }
+                Expr::Binary(b) if cx.lib && matches!(b.op, BinOp::BitOrAssign(_)) && matches!(&*b.left, Expr::Index(_)) => {
+                    let Expr::Index(ix) = &*b.left else { unreachable!() };
+                    let base = lhs_str(cx, &ix.expr)?;
+                    let i = expr(cx, &ix.index)?;
+                    let v = expr(cx, &b.right)?;
+                    flush(cx, &pad, &mut out);
+                    writeln!(out, "{}let {} := {}.set {} (UInt8.ofNat (({}.getD {} 0).toNat ||| {}))", pad, base, base, i, base, i, paren(&v)).unwrap();
+                }
+                Expr::MethodCall(m) if cx.lib && m.method == "copy_from_slice" && m.args.len() == 1 => {
+                    let Expr::Index(ix) = &*m.receiver else { return Err("copy_from_slice target".into()) };
+                    let base = lhs_str(cx, &ix.expr)?;
+                    let Expr::Range(r) = &*ix.index else { return Err("copy_from_slice range".into()) };
+                    let lo = match &r.start { Some(a) => expr(cx, a)?, None => "0".into() };
+                    let hi = match &r.end { Some(b) => format!("(some {})", expr(cx, b)?), None => "none".into() };
+                    let src = expr(cx, &m.args[0])?;
+                    if !cx.outcome { return Err("copy_from_slice outside an Outcome function".into()); }
+                    flush(cx, &pad, &mut out);
+                    writeln!(out, "{}let {} ← Sm9.sliceCopy {} {} {} {}", pad, base, base, lo, hi, paren(&src)).unwrap();
+                }
+                Expr::MethodCall(m) if cx.lib && m.method == "normalize" && m.args.is_empty() => {
+                    let l = lhs_str(cx, &m.receiver)?;
+                    flush(cx, &pad, &mut out);
+                    writeln!(out, "{}let {} := Sm9.Api.normalize {}", pad, l, l).unwrap();
                 }
                 Expr::Assign(a) => {
                     if let Expr::Field(f) = &*a.left {
@@ -739,6 +935,10 @@ const TARGETS: &[Target] = &[
     Target { file: "pairings.rs", self_ty: "", lean_ns: "Pairings", mono: None, fns: &["pairing", "fast_pairing", "bit"] },
     Target { file: "groups.rs", self_ty: "AffineG", lean_ns: "AffineG1", mono: Some("Fq"), fns: &["new", "to_jacobian"] },
     Target { file: "groups.rs", self_ty: "AffineG", lean_ns: "AffineG2", mono: Some("Fq2"), fns: &["new", "to_jacobian"] },
+    Target { file: "lib.rs", self_ty: "G1", lean_ns: "LibG1", mono: None, fns: &["from_compressed", "to_compressed", "to_uncompressed", "from_uncompressed", "to_slice", "from_slice", "normalize"] },
+    Target { file: "lib.rs", self_ty: "G2", lean_ns: "LibG2", mono: None, fns: &["from_compressed", "to_compressed", "to_uncompressed", "from_uncompressed", "to_slice", "from_slice", "normalize"] },
+    Target { file: "lib.rs", self_ty: "G2Prepared", lean_ns: "LibG2Prepared", mono: None, fns: &["pairing", "from"] },
+    Target { file: "lib.rs", self_ty: "", lean_ns: "Lib", mono: None, fns: &["pairing", "fast_pairing"] },
 ];
 
 fn impl_self_name(im: &ItemImpl) -> Option<String> {
@@ -791,7 +991,7 @@ fn main() {
         }
         for f in t.fns { let key = format!("{}.{}", t.lean_ns, f); report.entry(key).or_insert_with(|| "not found in source".into()); }
     }
-    let header = "-- GENERATED by rs2lean from /repo/src on every run — do not edit.\nimport Sm9.Model.Api\nset_option linter.unusedVariables false\nnamespace Sm9.Gen\nopen Sm9\n\n";
+    let header = "-- GENERATED by rs2lean from /repo/src on every run — do not edit.\nimport Sm9.Model.Api\nimport Sm9.Gen.Support\nset_option linter.unusedVariables false\nnamespace Sm9.Gen\nopen Sm9\n\n";
     let text = format!("{}{}\nend Sm9.Gen\n", header, defs);
     write_if_changed(&format!("{}/Rust.lean", out_dir), &text);
     let mut rep = String::from("{\n");
@@ -811,13 +1011,18 @@ fn write_if_changed(path: &str, text: &str) {
 fn translate_fn(t: &Target, m: &ImplItemFn) -> R<(String, Vec<String>, bool)> {
     let name = m.sig.ident.to_string();
     let self_lean = match t.self_ty { "G" => format!("G {}", t.mono.unwrap()), "AffineG" => format!("AffineG {}", t.mono.unwrap()), "G2" => "G2".to_string(), o => o.to_string() };
+    let self_lean = if t.file == "lib.rs" && t.self_ty == "" { String::new() } else { self_lean };
     let ret_s = match &m.sig.output { ReturnType::Type(_, ty) => quote::quote!(#ty).to_string(), _ => String::new() };
     let ret_option = ret_s.starts_with("Option");
     let ret_result = ret_s.starts_with("Result");
     let mut_self = m.sig.inputs.iter().any(|a| matches!(a, FnArg::Receiver(r) if r.mutability.is_some() && r.reference.is_some()));
     let outcome = contains_unwrap(&m.block) || calls_outcome(&m.block) || (t.self_ty == "G2Prepared" && name == "miller_loop");
-    let cx = Ctx { self_ty: self_lean.clone(), mono: t.mono.map(|s| s.to_string()), ret_option, outcome, mut_self, fresh: std::cell::Cell::new(0), binds: Default::default(), uninit: Default::default(),
-                   ret_result, err_ty: err_ty_of(t.file).to_string(), group_vars: Default::default(), ns: t.lean_ns.to_string() };
+    let lib = t.file == "lib.rs";
+    let unit_ret = matches!(&m.sig.output, ReturnType::Default) && mut_self;
+    let elem = match (lib, t.self_ty) { (true, "G1") => "Fq", (true, "G2") => "Fq2", _ => "" }.to_string();
+    let outcome = outcome || (lib && { let b = &m.block; let s = quote::quote!(#b).to_string().replace(' ', ""); s.contains("pairings::pairing(") || s.contains("pairings::fast_pairing(") || s.contains("copy_from_slice(") });
+    let cx = Ctx { self_ty: self_lean.clone(), mono: t.mono.map(|s| s.to_string()), ret_option, outcome, mut_self: mut_self && !unit_ret, fresh: std::cell::Cell::new(0), binds: Default::default(), uninit: Default::default(),
+                   ret_result, err_ty: err_ty_of(t.file).to_string(), group_vars: Default::default(), ns: t.lean_ns.to_string(), lib, elem, unit_ret };
     let mut params = vec![];
     let mut pnames = vec![];
     for a in &m.sig.inputs {
@@ -833,10 +1038,11 @@ fn translate_fn(t: &Target, m: &ImplItemFn) -> R<(String, Vec<String>, bool)> {
         }
     }
     let ret = match &m.sig.output {
+        ReturnType::Default if unit_ret => self_lean.clone(),
         ReturnType::Default => return Err("no return type".into()),
         ReturnType::Type(_, ty) => ty_name(ty, &cx)?,
     };
-    let ret = if mut_self { format!("{} × {}", self_lean, paren(&ret)) } else { ret };
+    let ret = if mut_self && !unit_ret { format!("{} × {}", self_lean, paren(&ret)) } else { ret };
     let ret = if outcome { format!("Outcome ({})", ret) } else { ret };
     // frobenius_map: one definition per literal arm
     if name == "frobenius_map" {
@@ -851,7 +1057,7 @@ fn translate_fn(t: &Target, m: &ImplItemFn) -> R<(String, Vec<String>, bool)> {
         }
         return Ok((out, pnames, true));
     }
-    let body = stmts(&cx, &m.block.stmts, 2, None)?;
+    let body = stmts(&cx, &m.block.stmts, 2, if unit_ret { Some("self") } else { None })?;
     let body = if outcome { format!("  do\n{}", body.lines().map(|l| format!("  {}", l)).collect::<Vec<_>>().join("\n")) } else { body };
     Ok((format!("def {}.{} {} : {} :=\n{}\n", t.lean_ns, ident(&name), params.join(" "), ret, body), pnames, false))
 }
